@@ -1395,3 +1395,126 @@ def traced_paths(ctx, world):
     for fq, x in bad:
         ctx.fail("A6.tracedpath", f"{fq}:{norm_text(x)[:40]}", f"{fq}|tracedness-test", loc_of(m, x), f"`{norm_text(x)[:60]}` makes {fq.split('.')[-1]} take a different path when an operand is traced: the value computed under differentiation is produced by other code than the value of the plain call", "the same call under grad / make_jvp on operands for which the two implementations differ (e.g. ndim >= 3)")
     ctx.floor("A6.tracedpath wrapper functions", n, 15)
+
+
+OPTION_CLASSES = {
+    "norm": [[None, "backward"], ["ortho"], ["forward"]],  # numpy.fft: None is documented as "backward"
+    "UPLO": [["L"], ["U"]],
+}
+
+
+def option_dispatch_distinct(ctx, world):
+    """A6.distinct - NumPy's closed option domains consist of values with pairwise DIFFERENT meanings (fft norm:
+    backward / ortho / forward scale by 1, 1/sqrt(N), 1/N; UPLO: the lower / upper triangle), synonyms aside
+    (norm=None is "backward").  Where a rule dispatches on such an option - an if/elif chain, a conditional
+    expression or a table keyed by the option's values - two values of different meaning cannot select the same
+    code: identical arms are a copied branch / a stale table entry."""
+    ctx.describe("A6.distinct", "a dispatch on a closed NumPy option domain (fft norm, UPLO) - if/elif chain, conditional expression or dict keyed by the option's values - never selects identical code for two values with different documented meanings (None and 'backward' are synonyms)")
+    n = 0
+
+    def option_of(consts):
+        for name, classes in OPTION_CLASSES.items():
+            dom = [v for c in classes for v in c]
+            if consts and all(any(v == d and type(v) is type(d) for d in dom) for v in consts):
+                cls = {i for i, c in enumerate(classes) for v in consts if any(v == d and type(v) is type(d) for d in c)}
+                if len(cls) >= 2:
+                    return name, classes
+        return None, None
+
+    def cls_of(classes, v):
+        return next(i for i, c in enumerate(classes) if any(v == d and type(v) is type(d) for d in c))
+
+    def test_consts(test):
+        """(subject text, [constants]) of `S == c` / `S is c` / `S in (c, ..)` / an `or` of those on one subject"""
+        if isinstance(test, ast.BoolOp) and isinstance(test.op, ast.Or):
+            parts = [test_consts(v) for v in test.values]
+            if all(p is not None for p in parts) and len({p[0] for p in parts}) == 1:
+                return parts[0][0], [c for p in parts for c in p[1]]
+            return None
+        if isinstance(test, ast.Compare) and len(test.ops) == 1:
+            l, r, op = test.left, test.comparators[0], test.ops[0]
+            if isinstance(op, (ast.Eq, ast.Is)):
+                for s_, c_ in ((l, r), (r, l)):
+                    if isinstance(c_, ast.Constant) and not isinstance(s_, ast.Constant):
+                        return norm_text(s_), [c_.value]
+            if isinstance(op, ast.In) and isinstance(r, (ast.Tuple, ast.List, ast.Set)) and all(isinstance(x, ast.Constant) for x in r.elts):
+                return norm_text(l), [x.value for x in r.elts]
+        return None
+
+    def judge(mod, node, arms, what):
+        """arms: [(constants, code text)]"""
+        nonlocal n
+        consts = [c for cs, _ in arms for c in cs]
+        name, classes = option_of(consts)
+        if name is None:
+            return
+        n += 1
+        fq = getattr(_encl_def(node), "name", "<module>")
+        inst = f"{mod.name}.{fq}: {what} on {name}"
+        clash = None
+        flat = [(c, txt) for cs, txt in arms for c in cs]
+        for i, (c1, t1) in enumerate(flat):
+            for c2, t2 in flat[i + 1 :]:
+                if cls_of(classes, c1) != cls_of(classes, c2) and t1 == t2:
+                    clash = (c1, c2, t1)
+        if clash is None:
+            ctx.ob("A6.distinct", inst, True, loc_of(mod, node), sample=f"{len(flat)} value(s), pairwise different code for different meanings")
+        else:
+            ctx.fail("A6.distinct", inst, f"{mod.name}.{fq}|same-code:{name}={clash[0]!r}/{clash[1]!r}", loc_of(mod, node), f"{name}={clash[0]!r} and {name}={clash[1]!r} mean different things to NumPy but select the same code (`{clash[2][:50]}`) in this {what}", f"the same call once with {name}={clash[0]!r} and once with {name}={clash[1]!r}: one of the two gets the other's scaling / triangle")
+
+    def dispatches(tree):
+        for x in ast.walk(tree):
+            if isinstance(x, ast.Dict) and x.keys and all(isinstance(k, ast.Constant) for k in x.keys):
+                yield x, [([k.value], norm_text(v)) for k, v in zip(x.keys, x.values)], "table"
+            elif isinstance(x, ast.If):
+                par = getattr(x, "_parent", None)
+                if isinstance(par, ast.If) and par.orelse == [x]:
+                    continue  # an elif arm of a chain already taken from its head
+                arms, cur, subj = [], x, None
+                while isinstance(cur, ast.If):
+                    tc = test_consts(cur.test)
+                    if tc is not None and (subj is None or tc[0] == subj):
+                        subj = tc[0]
+                        arms.append((tc[1], "; ".join(norm_text(s) for s in cur.body)))
+                    cur = cur.orelse[0] if len(cur.orelse) == 1 else None
+                if len(arms) >= 2:
+                    yield x, arms, "if/elif chain"
+            elif isinstance(x, ast.IfExp):
+                par = getattr(x, "_parent", None)
+                if isinstance(par, ast.IfExp) and par.orelse is x:
+                    continue
+                arms, cur, subj = [], x, None
+                while isinstance(cur, ast.IfExp):
+                    tc = test_consts(cur.test)
+                    if tc is not None and (subj is None or tc[0] == subj):
+                        subj = tc[0]
+                        arms.append((tc[1], norm_text(cur.body)))
+                    cur = cur.orelse
+                if len(arms) >= 2:
+                    yield x, arms, "conditional expression"
+
+    # the matcher is verified on an embedded positive example on every run (today's tree has two dispatches; a
+    # refactoring may leave none, which is fine - a matcher that recognises nothing is not)
+    probe = ast.parse(
+        "def f(fac, N, norm, UPLO, a):\n"
+        "    s = {None: 1 / N, 'backward': 1 / N, 'ortho': 1.0, 'forward': 1 / N}[norm]\n"
+        "    if norm is None or norm == 'backward':\n        fac /= N\n    elif norm == 'forward':\n        fac /= N\n"
+        "    t = a.T if UPLO == 'L' else (a.T if UPLO == 'U' else a)\n"
+        "    ok = {None: 1 / N, 'backward': 1 / N, 'ortho': 1.0, 'forward': N}[norm]\n"
+    )
+    for par_ in ast.walk(probe):
+        for ch_ in ast.iter_child_nodes(par_):
+            ch_._parent = par_
+    got = []
+    for x, arms, what in dispatches(probe):
+        name, classes = option_of([c for cs, _ in arms for c in cs])
+        flat = [(c, txt) for cs, txt in arms for c in cs]
+        got.append((what, name, any(cls_of(classes, c1) != cls_of(classes, c2) and t1 == t2 for i, (c1, t1) in enumerate(flat) for c2, t2 in flat[i + 1 :]) if name else None))
+    if sorted(got, key=str) != sorted([("table", "norm", True), ("if/elif chain", "norm", True), ("conditional expression", "UPLO", True), ("table", "norm", False)], key=str):
+        raise AnalysisError(f"A6.distinct matcher no longer recognises its positive example ({got})")
+    for mod in world.repo.mods.values():
+        if not mod.name.startswith("autograd.numpy"):
+            continue
+        for x, arms, what in dispatches(mod.tree):
+            judge(mod, x, arms, what)
+    ctx.ob("A6.distinct", f"{n} dispatch(es) on a closed option domain in autograd.numpy.*; matcher verified on its positive example (table, if/elif chain, conditional expression)", True, "autograd/numpy/*", nontrivial=True)
